@@ -1943,16 +1943,13 @@ class StridedInterval:
             if a.is_integer and number_of_ones(a.lower_bound) == 1 and a.lower_bound == (1 << (t.bits - 1)):
                 # It's testing the sign bit
                 stride = 1 << (a.bits - 1)
-                if b.is_integer:
-                    if b.lower_bound == stride:
-                        return StridedInterval(bits=b.bits, stride=0, lower_bound=stride, upper_bound=stride)
+                # The result is the sign bit of b: collect the signs b can have (the pieces do not straddle the poles)
+                signs = {StridedInterval._get_msb(piece.lower_bound, piece.bits) for piece in b._psplit()}
+                if signs == {1}:
+                    return StridedInterval(bits=b.bits, stride=0, lower_bound=stride, upper_bound=stride)
+                if signs == {0}:
                     return StridedInterval(bits=b.bits, stride=0, lower_bound=0, upper_bound=0)
-                is_sol = (
-                    a.lower_bound - b.lower_bound
-                ) % b.stride == 0 and b.lower_bound <= a.lower_bound <= b.upper_bound
-                if is_sol:
-                    return StridedInterval(bits=b.bits, stride=stride, lower_bound=0, upper_bound=stride)
-                return StridedInterval(bits=b.bits, stride=0, lower_bound=0, upper_bound=0)
+                return StridedInterval(bits=b.bits, stride=stride, lower_bound=0, upper_bound=stride)
             # FIXME: implement case only one 1 not in first position
 
         # paper's and
